@@ -100,7 +100,10 @@ def _fill(s, spec, ctr, explicit=None):
     for key, kind in spec:
         if isinstance(kind, list) and explicit is not None:
             # the sub-schema is created by the user, with an environment option of its own, and mounted by attribute
-            sub = cc.Schema(env=ENV_OPTS[explicit[0] % len(ENV_OPTS)])
+            kw = {"env": ENV_OPTS[explicit[0] % len(ENV_OPTS)]}
+            if explicit[0] % 2 == 0:
+                kw["key"] = key              # the key is also given to the constructor (the documented idiom), with the mount name
+            sub = cc.Schema(**kw)
             explicit[0] += 1
             setattr(s, key, sub)
             _fill(sub, kind, ctr, explicit)
@@ -119,7 +122,7 @@ def _fill(s, spec, ctr, explicit=None):
         elif kind == "Choice":
             setattr(s, key, cc.StringField(choices=["a", "b"], transform_case="lower", transform_strip=True, default="a"))
         elif kind == "Int":
-            setattr(s, key, cc.IntField(default=1))
+            setattr(s, key, cc.IntField(default=1, **({"key": key} if explicit is not None else {})))
         elif kind == "Str":
             setattr(s, key, cc.StringField(default="d"))
         elif kind == "Float":
@@ -330,14 +333,19 @@ def check_schema(ctx, spec, only, bottom_up=False):
                 before = dict(snapshot(cfg, spec))
                 err = io.StringIO()
                 ctx.transitions += 1
+                ns_before = None
                 try:
                     with contextlib.redirect_stderr(err):
                         ns = parser.parse_args(argv)
+                    ns_before = dict(vars(ns))
                     cc.cmdline_args_override(cfg, ns, ign)
                 except BaseException as exc:  # noqa  (argparse exits with SystemExit)
                     ctx.case((str(spec), state, tuple(argv), str(ign)), "cmdline:raises", True)
                     bad("cmdline-raises", "state %s argv %s ignore %s raised %r %s" % (state, argv, ign, exc, err.getvalue()[-100:]), [state, argv, ign])
                     continue
+                if ns_before is not None and dict(vars(ns)) != ns_before:
+                    bad("namespace-changed", "state %s argv %s ignore %s: applying the parsed arguments changed them (%s)" % (
+                        state, argv, ign, sorted(set(ns_before) ^ set(vars(ns)))), [state, argv, ign])
                 ignset = set([ign] if isinstance(ign, str) else (ign or []))
                 expect = dict(before)
                 for p, _, val in supplied:
